@@ -245,6 +245,16 @@ def run(repo: Repo, chk: Check) -> None:
             res = mk_interp().run_paths(trip)
             ok = len(res) == 1 and res[0].outcome == 'return' and res[0].value[0] == res[0].value[1]
             pairs = [vrepr(e[1].get('entrypoint')) if isinstance(e[1], dict) else vrepr(e[1]) for p in res for e in p.events if isinstance(e, tuple) and e[0] == 'pair']
+            # the entrypoint named is the deepest annotated node on the way to the leaf (the root entrypoint when there is none)
+            want_ep, node_ = rn, root
+            for c in path:
+                node_ = node_.args[int(c)]
+                if node_.field_name:
+                    want_ep = node_.field_name
+            chk.ob('R-PAIR', tp.qualname, pairs == [repr(want_ep)] or not ok, f'{name}: value at leaf {path or "(root)"} is addressed to entrypoint {want_ep}', tp.loc,
+                   {'entrypoint_chosen': pairs, 'reference': want_ep},
+                   what=f'parameter {name}: the full value {"/".join("LR"[int(c)] for c in path) or "(root)"} is converted to entrypoint {pairs} instead of `{want_ep}` '
+                        '(the deepest annotated node on its path): the call is addressed to another entrypoint than the one the value belongs to')
             chk.ob('R-PAIR', tp.qualname, ok, f'{name}: value at leaf {path or "(root)"} round-trips through (entrypoint, argument)', tp.loc,
                    {'entrypoint_chosen': pairs, 'outcome': [(p.outcome, vrepr(p.value)[:120]) for p in res]},
                    what=f'parameter {name}: the full value {"/".join("LR"[int(c)] for c in path) or "(root)"} cannot be converted to (entrypoint, argument) and back: '
